@@ -76,6 +76,9 @@ def sensitivity(pid: str, root: str, chk: Check) -> dict:
     benign_alarms = [f"{r[0]}: {r[1]} {r[2]}" for r in bres if r[1] in ("reported", "inconclusive")]
     for r in survivors:
         chk.say(f"SENSITIVITY: mutant not reported (checker weakness, not a violation): {r[0]}")
+    for r in results:
+        if r[1] == "skipped":
+            chk.say(f"SENSITIVITY: variant skipped (its anchor text is not in the current tree): {r[0]}")
     for r in inconclusive:
         chk.say(f"SENSITIVITY: mutant made the analysis inconclusive (exit 2, fail-closed): {r[0]}: {r[2]}")
     summary = {
